@@ -8,6 +8,7 @@ CONSTANTS
   MaxArgs = 2
   Commands = {"check", "echo", "tokenize"}
   Encodings = {"utf8"}
+  Verbosities = {0}
   Emit = TRUE
 INVARIANTS ExitOkDiagAgree EchoTokenizeExit DependsOnlyOnDenotation EmitReplay
 CHECK_DEADLOCK FALSE
